@@ -291,6 +291,7 @@ _c14 = json.load(open("kf_c14_keys.json"))
 _c14_space = {
     "spell": "spellings of defaults / literal operands in initialisers",
     "shape": "dependency shapes over <= 3 overrides",
+    "comp": "overrides in composite constructors and with named constants",
     "ops": "every scalar operator/builtin/conversion/bitcast on an override, in a function body, a helper, a derived initialiser or a module-scope var initialiser",
     "chain": "depth-2 chains of core operators on an override",
     "cf": "F2 control-flow trees steered by overrides",
